@@ -24,6 +24,7 @@ import (
 type hookIC struct {
 	world  *imgfs.World
 	before func(label string)
+	fault  func(label string) error // non-nil answer: the operation fails with it instead of running
 	// sample > 1: only about every sample-th operation is followed by an image (free running histories: less
 	// serialisation, the goroutines of the node interleave more freely)
 	sample int64
@@ -33,6 +34,11 @@ type hookIC struct {
 func (h *hookIC) Do(label string, op func() error) error {
 	if b := h.before; b != nil {
 		b(label)
+	}
+	if h.fault != nil {
+		if err := h.fault(label); err != nil {
+			return err
+		}
 	}
 	if h.sample > 1 && h.n.Add(1)%h.sample != 0 {
 		return h.world.DoMaybe(label, func() (bool, error) { return false, op() })
